@@ -22,13 +22,21 @@ def restNames (n : Nat) : List String := (List.range n).map (fun i => "_r" ++ to
 
 def pName (i : Nat) : String := "_p" ++ toString i
 
-/-- argument forms whose evaluation runs no code of the program (isInertArg of fc/expr_to_go.fo,
-restricted to the forms of the fragment) -/
+/-! argument forms whose evaluation runs no code of the program (isInertArg of fc/expr_to_go.fo,
+restricted to the forms of the fragment): literals, variables, fields of a variable, lambdas, and
+partial applications of such arguments (they only build a closure) -/
+mutual
 def isInert : Expr → Bool
   | .lit _ => true
   | .var _ => true
   | .prim (.fld _) [.var _] => true
+  | .lam _ _ => true
+  | .call _ arity args => decide (args.length < arity) && isInertL args
   | _ => false
+def isInertL : List Expr → Bool
+  | [] => true
+  | e :: es => isInert e && isInertL es
+end
 
 /-- the given arguments of a partial application from position `i` on: what the closure body
 mentions for each, and the bindings that evaluate the others beforehand (partialArgGo) -/
